@@ -607,6 +607,20 @@ def clone_value_cases():
             for k, v in c._data.items():
                 if lines_in(v):
                     return "clone of connected %r: field %s holds a line of the Gfa (%r)" % (str(l), k, type(v).__name__)
+    # the header of a Gfa whose H lines repeat a tag (the values are kept in one array per tag), for every datatype
+    for dt, v1, v2 in (("J", "[1]", "{\"a\": [2]}"), ("i", "1", "2"), ("Z", "a", "b"), ("B", "c,-1", "f,1.5"), ("H", "0A", "0B"), ("f", "1.5", "2.5"), ("A", "x", "y")):
+        g = gfapy.Gfa(["H\txx:%s:%s" % (dt, v1), "H\txx:%s:%s" % (dt, v2), "S\ta\t*"])
+        h = g.header
+        try:
+            c = h.clone()
+        except Exception as e:
+            return "clone of a header with two xx:%s tags raised %s" % (dt, type(e).__name__)
+        if str(c) != str(h):
+            return "clone of a header with two xx:%s tags: %r instead of %r" % (dt, str(c), str(h))
+        mine = {id(x) for x in mutable_objects(h._data["xx"])}
+        for x in mutable_objects(c._data["xx"]):
+            if id(x) in mine:
+                return "clone of a header with two xx:%s tags shares a %s object" % (dt, type(x).__name__)
     return True
 
 
